@@ -208,6 +208,11 @@ def check(model, rep):
     # the flag's source: Powertrain.self_locking must be the 'any self-locking worm gear' scan (shared with C20)
     from checks.c20 import check_locking
     check_locking(model, rep, model.member('Powertrain', '__init__'), R='C13.flag-source')
+    from sa.core import Report as _Report
+    from checks.c20 import check_concrete
+    _dep = _Report('C20')
+    check_concrete(model, _dep, model.member('Powertrain', '__init__'))
+    rep.absorb(_dep, {'C20.locking': 'C13.flag-source'})
     # ... and the worm's own flag is written by add_worm_gear_mating only: with the documented criterion, and only by a
     # call that is accepted (a refused call must leave the gears of the mating still in force untouched) - C10's rules
     from sa.core import Report
